@@ -118,7 +118,7 @@ def run(ctx):
     for a in archives:
         second = os.path.join(ctx.work, a["name"] + "_again.agc")
         if a["kind"] != "big":
-            C.rvh(["create", "--dir", a["dir"], "--out", second], check=False, env=c14.MALLOC_ENV)
+            C.rvh(["container-create", "--dir", a["dir"], "--out", second], check=False, env=c14.MALLOC_ENV)
             if open(second, "rb").read() != open(a["path"], "rb").read():
                 raise C.ToolError("create of %s is not reproducible with one worker thread: no fixed image to compare with" % a["name"])
         if a["kind"] == "tiny":
